@@ -98,6 +98,22 @@ Theorem C07_netlist_clone_keeps_invariant : forall ops n,
 Proof. exact clone_netlist_reachable_inv. Qed.
 Print Assumptions C07_netlist_clone_keeps_invariant.
 
+(* "a structurally identical copy (same ... ordering ... and connections) ... in which every link -
+   instance references, reference sets ... - resolves inside the copy": under the same hypotheses
+   there is a one-to-one map M from the objects of the netlist onto fresh objects of the same kinds
+   such that the copy of the netlist lists, in order, the images of its libraries; the copy of each
+   library the images of its definitions; the copy of each definition the images of its ports,
+   cables and child instances; the copy of each port / cable the images of its pins / wires; the
+   copy of each instance references the image of the definition its source references; and the
+   reference set of the copy of each definition consists exactly of the images of the instances
+   that reference the source. *)
+Theorem C07_netlist_clone_structure : forall ops n,
+  let s := run ops init in
+  kind_of s n = Some KNetlist -> Closed s n -> snd (fst (clone_netlist s n)) = None ->
+  exists M, NetStruct s n (fst (fst (clone_netlist s n))) (snd (clone_netlist s n)) M.
+Proof. exact clone_netlist_reachable_struct. Qed.
+Print Assumptions C07_netlist_clone_structure.
+
 (* ... and from any state that satisfies the invariants the editing calls maintain *)
 Theorem C07_netlist_clone_keeps_invariant_from : forall s0 n,
   UF s0 -> StartOK s0 -> (forall x e, iref s0 x = Some e -> kind_of s0 e = Some KDefinition) ->
